@@ -188,9 +188,9 @@ func (vfs *BasePathFS) FromSlash(path string) string {
 // reached via multiple paths (due to symbolic links),
 // Getwd may return any one of them.
 func (vfs *BasePathFS) Getwd() (dir string, err error) {
-	dir, err = vfs.baseFS.Getwd()
+	_, err = vfs.baseFS.Getwd()
 
-	return vfs.FromBasePath(dir), vfs.FromPathError(err)
+	return vfs.curDir(), vfs.FromPathError(err)
 }
 
 // Glob returns the names of all files matching pattern or nil
@@ -202,13 +202,9 @@ func (vfs *BasePathFS) Getwd() (dir string, err error) {
 // The only possible returned error is ErrBadPattern, when pattern
 // is malformed.
 func (vfs *BasePathFS) Glob(pattern string) (matches []string, err error) {
-	matches, err = vfs.baseFS.Glob(vfs.ToBasePath(pattern))
-
-	for i, m := range matches {
-		matches[i] = vfs.FromBasePath(m)
-	}
-
-	return matches, err
+	// match in the BasePathFS namespace: a pattern is not a path (ToBasePath would clean it),
+	// and the matches of a relative pattern are relative.
+	return avfs.Glob(vfs, pattern)
 }
 
 // Idm returns the identity manager of the file system.
